@@ -207,7 +207,8 @@ package dpt
 //@ func lemmaC07mono_DPT_5001(x DPT_5001, y DPT_5001)
 //@   props C07
 //@   exact
-//@   timeout 120
+//@   thorough
+//@   timeout 300
 
 //@ func lemmaC06_DPT_5003(b []byte)
 //@   props C06
@@ -220,7 +221,8 @@ package dpt
 //@ func lemmaC07mono_DPT_5003(x DPT_5003, y DPT_5003)
 //@   props C07
 //@   exact
-//@   timeout 120
+//@   thorough
+//@   timeout 300
 
 //@ func lemmaC06_DPT_5004(b []byte)
 //@   props C06
@@ -369,7 +371,8 @@ package dpt
 //@ func lemmaC07mono_DPT_8003(x DPT_8003, y DPT_8003)
 //@   props C07
 //@   exact
-//@   timeout 120
+//@   thorough
+//@   timeout 300
 
 //@ func lemmaC06_DPT_8004(b []byte)
 //@   props C06
@@ -382,7 +385,8 @@ package dpt
 //@ func lemmaC07mono_DPT_8004(x DPT_8004, y DPT_8004)
 //@   props C07
 //@   exact
-//@   timeout 120
+//@   thorough
+//@   timeout 300
 
 //@ func lemmaC06_DPT_8005(b []byte)
 //@   props C06
@@ -419,7 +423,8 @@ package dpt
 //@ func lemmaC07mono_DPT_8010(x DPT_8010, y DPT_8010)
 //@   props C07
 //@   exact
-//@   timeout 120
+//@   thorough
+//@   timeout 300
 
 //@ func lemmaC06_DPT_8011(b []byte)
 //@   props C06
@@ -429,205 +434,85 @@ package dpt
 //@   props C07
 //@   exact
 
-//@ func lemmaC06_DPT_9001(b []byte)
-//@   props C06
-//@   exact
-//@   timeout 120
-
 //@ func lemmaC07_DPT_9001(x DPT_9001)
 //@   props C07
 //@   exact
-//@   timeout 120
-
-//@ func lemmaC06_DPT_9002(b []byte)
-//@   props C06
-//@   exact
-//@   timeout 120
 
 //@ func lemmaC07_DPT_9002(x DPT_9002)
 //@   props C07
 //@   exact
-//@   timeout 120
-
-//@ func lemmaC06_DPT_9003(b []byte)
-//@   props C06
-//@   exact
-//@   timeout 120
 
 //@ func lemmaC07_DPT_9003(x DPT_9003)
 //@   props C07
 //@   exact
-//@   timeout 120
-
-//@ func lemmaC06_DPT_9004(b []byte)
-//@   props C06
-//@   exact
-//@   timeout 120
 
 //@ func lemmaC07_DPT_9004(x DPT_9004)
 //@   props C07
 //@   exact
-//@   timeout 120
-
-//@ func lemmaC06_DPT_9005(b []byte)
-//@   props C06
-//@   exact
-//@   timeout 120
 
 //@ func lemmaC07_DPT_9005(x DPT_9005)
 //@   props C07
 //@   exact
-//@   timeout 120
-
-//@ func lemmaC06_DPT_9006(b []byte)
-//@   props C06
-//@   exact
-//@   timeout 120
 
 //@ func lemmaC07_DPT_9006(x DPT_9006)
 //@   props C07
 //@   exact
-//@   timeout 120
-
-//@ func lemmaC06_DPT_9007(b []byte)
-//@   props C06
-//@   exact
-//@   timeout 120
 
 //@ func lemmaC07_DPT_9007(x DPT_9007)
 //@   props C07
 //@   exact
-//@   timeout 120
-
-//@ func lemmaC06_DPT_9008(b []byte)
-//@   props C06
-//@   exact
-//@   timeout 120
 
 //@ func lemmaC07_DPT_9008(x DPT_9008)
 //@   props C07
 //@   exact
-//@   timeout 120
-
-//@ func lemmaC06_DPT_9010(b []byte)
-//@   props C06
-//@   exact
-//@   timeout 120
 
 //@ func lemmaC07_DPT_9010(x DPT_9010)
 //@   props C07
 //@   exact
-//@   timeout 120
-
-//@ func lemmaC06_DPT_9011(b []byte)
-//@   props C06
-//@   exact
-//@   timeout 120
 
 //@ func lemmaC07_DPT_9011(x DPT_9011)
 //@   props C07
 //@   exact
-//@   timeout 120
-
-//@ func lemmaC06_DPT_9020(b []byte)
-//@   props C06
-//@   exact
-//@   timeout 120
 
 //@ func lemmaC07_DPT_9020(x DPT_9020)
 //@   props C07
 //@   exact
-//@   timeout 120
-
-//@ func lemmaC06_DPT_9021(b []byte)
-//@   props C06
-//@   exact
-//@   timeout 120
 
 //@ func lemmaC07_DPT_9021(x DPT_9021)
 //@   props C07
 //@   exact
-//@   timeout 120
-
-//@ func lemmaC06_DPT_9022(b []byte)
-//@   props C06
-//@   exact
-//@   timeout 120
 
 //@ func lemmaC07_DPT_9022(x DPT_9022)
 //@   props C07
 //@   exact
-//@   timeout 120
-
-//@ func lemmaC06_DPT_9023(b []byte)
-//@   props C06
-//@   exact
-//@   timeout 120
 
 //@ func lemmaC07_DPT_9023(x DPT_9023)
 //@   props C07
 //@   exact
-//@   timeout 120
-
-//@ func lemmaC06_DPT_9024(b []byte)
-//@   props C06
-//@   exact
-//@   timeout 120
 
 //@ func lemmaC07_DPT_9024(x DPT_9024)
 //@   props C07
 //@   exact
-//@   timeout 120
-
-//@ func lemmaC06_DPT_9025(b []byte)
-//@   props C06
-//@   exact
-//@   timeout 120
 
 //@ func lemmaC07_DPT_9025(x DPT_9025)
 //@   props C07
 //@   exact
-//@   timeout 120
-
-//@ func lemmaC06_DPT_9026(b []byte)
-//@   props C06
-//@   exact
-//@   timeout 120
 
 //@ func lemmaC07_DPT_9026(x DPT_9026)
 //@   props C07
 //@   exact
-//@   timeout 120
-
-//@ func lemmaC06_DPT_9027(b []byte)
-//@   props C06
-//@   exact
-//@   timeout 120
 
 //@ func lemmaC07_DPT_9027(x DPT_9027)
 //@   props C07
 //@   exact
-//@   timeout 120
-
-//@ func lemmaC06_DPT_9028(b []byte)
-//@   props C06
-//@   exact
-//@   timeout 120
 
 //@ func lemmaC07_DPT_9028(x DPT_9028)
 //@   props C07
 //@   exact
-//@   timeout 120
-
-//@ func lemmaC06_DPT_9029(b []byte)
-//@   props C06
-//@   exact
-//@   timeout 120
 
 //@ func lemmaC07_DPT_9029(x DPT_9029)
 //@   props C07
 //@   exact
-//@   timeout 120
 
 //@ func lemmaC06_DPT_10001(b []byte)
 //@   props C06
@@ -1381,16 +1266,8 @@ package dpt
 //@   props C07
 //@   exact
 
-//@ func lemmaC06_DPT_16000(b []byte)
-//@   props C06
-//@   exact
-
 //@ func lemmaC07_DPT_16000(x DPT_16000)
 //@   props C07
-//@   exact
-
-//@ func lemmaC06_DPT_16001(b []byte)
-//@   props C06
 //@   exact
 
 //@ func lemmaC07_DPT_16001(x DPT_16001)
@@ -1460,3 +1337,102 @@ package dpt
 //@ func lemmaC07_DPT_251600(x DPT_251600)
 //@   props C07
 //@   exact
+
+//@ func lemmaF16rt(b1 byte, b2 byte, k uint8)
+//@   inline
+
+//@ func lemmaF16rt_e0(b1 byte, b2 byte)
+//@   props C06
+//@   exact
+//@   thorough
+//@   timeout 1500
+
+//@ func lemmaF16rt_e1(b1 byte, b2 byte)
+//@   props C06
+//@   exact
+//@   thorough
+//@   timeout 1500
+
+//@ func lemmaF16rt_e2(b1 byte, b2 byte)
+//@   props C06
+//@   exact
+//@   thorough
+//@   timeout 1500
+
+//@ func lemmaF16rt_e3(b1 byte, b2 byte)
+//@   props C06
+//@   exact
+//@   thorough
+//@   timeout 1500
+
+//@ func lemmaF16rt_e4(b1 byte, b2 byte)
+//@   props C06
+//@   exact
+//@   thorough
+//@   timeout 1500
+
+//@ func lemmaF16rt_e5(b1 byte, b2 byte)
+//@   props C06
+//@   exact
+//@   thorough
+//@   timeout 1500
+
+//@ func lemmaF16rt_e6(b1 byte, b2 byte)
+//@   props C06
+//@   exact
+//@   thorough
+//@   timeout 1500
+
+//@ func lemmaF16rt_e7(b1 byte, b2 byte)
+//@   props C06
+//@   exact
+//@   thorough
+//@   timeout 1500
+
+//@ func lemmaF16rt_e8(b1 byte, b2 byte)
+//@   props C06
+//@   exact
+//@   thorough
+//@   timeout 1500
+
+//@ func lemmaF16rt_e9(b1 byte, b2 byte)
+//@   props C06
+//@   exact
+//@   thorough
+//@   timeout 1500
+
+//@ func lemmaF16rt_e10(b1 byte, b2 byte)
+//@   props C06
+//@   exact
+//@   thorough
+//@   timeout 1500
+
+//@ func lemmaF16rt_e11(b1 byte, b2 byte)
+//@   props C06
+//@   exact
+//@   thorough
+//@   timeout 1500
+
+//@ func lemmaF16rt_e12(b1 byte, b2 byte)
+//@   props C06
+//@   exact
+//@   thorough
+//@   timeout 1500
+
+//@ func lemmaF16rt_e13(b1 byte, b2 byte)
+//@   props C06
+//@   exact
+//@   thorough
+//@   timeout 1500
+
+//@ func lemmaF16rt_e14(b1 byte, b2 byte)
+//@   props C06
+//@   exact
+//@   thorough
+//@   timeout 1500
+
+//@ func lemmaF16rt_e15(b1 byte, b2 byte)
+//@   props C06
+//@   exact
+//@   thorough
+//@   timeout 1500
